@@ -15,6 +15,7 @@ func alias(newProp, newID, srcProp, srcID, note string) {
 func init() {
 	alias("C01", "R9", "C02", "R4", "agreement needs locks to be released only by a later polka")
 	alias("C01", "R10", "C02", "R3", "agreement needs every block precommit to be justified by a polka in its round")
+	alias("C04", "R8", "C02", "R5", "the persisted sign state only protects across restarts if the signer refuses height/round/step regressions and reuses signatures correctly")
 	alias("C02", "R6", "C01", "R3", "a precommit for a block goes with locking on it")
 	alias("C02", "R7", "C01", "R4", "after precommitting (locking) a block the validator prevotes nothing else")
 }
